@@ -111,6 +111,16 @@ func (a *kAggregate) Next(ctx context.Context) ([]model.StepVector, error) {
 
 	result := a.vectorPool.GetVectorBatch()
 	for i, vector := range in {
+		// Same checks as the Prometheus engine: k has to fit into an int64,
+		// and a k below one selects nothing.
+		if !(a.params[i] <= math.MaxInt64 && a.params[i] >= math.MinInt64) {
+			return nil, errors.Newf("Scalar value %v overflows int64", a.params[i])
+		}
+		if int64(a.params[i]) < 1 {
+			result = append(result, a.vectorPool.GetStepVector(vector.T))
+			a.next.GetPool().PutStepVector(vector)
+			continue
+		}
 		a.aggregate(vector.T, &result, int(a.params[i]), vector.SampleIDs, vector.Samples)
 		a.next.GetPool().PutStepVector(vector)
 	}
